@@ -175,11 +175,14 @@ theorem DriveTrace.err_last {c : List Accept} {r : Ready} (h : DriveTrace c r) :
         rw [hc1, ← hc2.1]
         simp
 
-/-- `poll_ready` on a stream that holds `d`. -/
+/-- `poll_ready` on a stream that holds `d`: the accepted bytes are a prefix of the buffer; the rest
+    is still held exactly when the result is `Pending`; a finished loop — completed or failed —
+    leaves no buffer behind. -/
 theorem pollReady_spec (d : WriteBuf) (h : d.WF) (script : List Accept) :
     let o := pollReady ⟨some d⟩ script
-    o.acc ++ o.state.held = d.view ∧ (∀ d', o.state.writing = some d' → d'.WF) ∧
-    (o.res = .ok ↔ o.state.writing = none) ∧ (o.res = .ok ↔ o.acc = d.view) ∧
+    (∃ t, o.acc ++ t = d.view ∧ (o.res = .pending → t = o.state.held)) ∧
+    (∀ d', o.state.writing = some d' → d'.WF) ∧
+    (o.res = .pending ↔ o.state.writing ≠ none) ∧ (o.res = .ok ↔ o.acc = d.view) ∧
     ∃ c, script = c ++ o.rest ∧ LoopTrace c o.res := by
   obtain ⟨i1, i2, i3, i4⟩ := writeLoop_spec script d h
   unfold pollReady
@@ -188,14 +191,13 @@ theorem pollReady_spec (d : WriteBuf) (h : d.WF) (script : List Accept) :
   | ok =>
     have hv := i3.mp hres
     rw [hv] at i1
-    simp only [Send.held]
-    refine ⟨by simpa using i1, by simp, by simp, by simpa using i1, ?_⟩
+    refine ⟨⟨[], by simpa using i1, by intro hh; cases hh⟩, by simp, by simp, by simpa using i1, ?_⟩
     simpa [hres] using i4
   | pending =>
     have hv : (writeLoop d script).buf.view ≠ [] := fun hv => by
       have := i3.mpr hv; rw [hres] at this; cases this
     simp only [Send.held]
-    refine ⟨i1, ?_, by simp, ?_, ?_⟩
+    refine ⟨⟨_, i1, fun _ => rfl⟩, ?_, by simp, ?_, ?_⟩
     · intro d' hd'; cases hd'; exact i2
     · constructor
       · intro hh; cases hh
@@ -205,8 +207,7 @@ theorem pollReady_spec (d : WriteBuf) (h : d.WF) (script : List Accept) :
     have hv : (writeLoop d script).buf.view ≠ [] := fun hv => by
       have := i3.mpr hv; rw [hres] at this; cases this
     simp only [Send.held]
-    refine ⟨i1, ?_, by simp, ?_, ?_⟩
-    · intro d' hd'; cases hd'; exact i2
+    refine ⟨⟨_, i1, by intro hh; cases hh⟩, by simp, by simp, ?_, ?_⟩
     · constructor
       · intro hh; cases hh
       · intro hh; rw [hh] at i1; exact absurd (by simpa using i1) hv
@@ -214,7 +215,8 @@ theorem pollReady_spec (d : WriteBuf) (h : d.WF) (script : List Accept) :
 
 /-- The specification of a complete `write()` of buffer contents `v`. -/
 def DriveSpec (v : Bytes) (script : List Accept) (o : PollOut) : Prop :=
-  o.acc ++ o.state.held = v ∧ (o.res = .ok ↔ o.state.writing = none) ∧ (o.res = .ok ↔ o.acc = v) ∧
+  (∃ t, o.acc ++ t = v ∧ (o.res = .pending → t = o.state.held)) ∧
+  (o.res = .pending ↔ o.state.writing ≠ none) ∧ (o.res = .ok ↔ o.acc = v) ∧
   ∃ c, script = c ++ o.rest ∧ DriveTrace c o.res
 
 theorem driveN_spec (n : Nat) : ∀ (script : List Accept) (d : WriteBuf), d.WF →
@@ -241,25 +243,26 @@ theorem driveN_spec (n : Nat) : ∀ (script : List Accept) (d : WriteBuf), d.WF 
       by_cases hl : (pollReady ⟨some d⟩ script).rest.length < script.length
       · rw [if_pos hl]
         -- the adapter still holds a well-formed buffer d'
-        have hw : (pollReady ⟨some d⟩ script).state.writing ≠ none := fun hh => by
-          have := p3.mpr hh; rw [hres] at this; cases this
+        have hw : (pollReady ⟨some d⟩ script).state.writing ≠ none := p3.mp hres
         cases hst : (pollReady ⟨some d⟩ script).state with
         | mk w =>
           cases w with
           | none => rw [hst] at hw; exact absurd rfl hw
           | some d' =>
             have hwf' : d'.WF := p2 d' (by rw [hst])
-            obtain ⟨q1, q2, q3, c', q5, q6⟩ := ih (pollReady ⟨some d⟩ script).rest d' hwf'
+            obtain ⟨⟨t', q1, q1'⟩, q2, q3, c', q5, q6⟩ := ih (pollReady ⟨some d⟩ script).rest d' hwf'
             have hheld : (pollReady ⟨some d⟩ script).state.held = d'.view := by rw [hst]; rfl
-            rw [hheld] at p1
+            obtain ⟨t, p1a, p1b⟩ := p1
+            have ht : t = d'.view := by rw [p1b hres, hheld]
+            rw [ht] at p1a
             rw [hres] at p6
-            refine ⟨?_, q2, ?_, c ++ c', ?_, .more p6 q6⟩
-            · simp only [List.append_assoc]; rw [q1]; exact p1
+            refine ⟨⟨t', ?_, q1'⟩, q2, ?_, c ++ c', ?_, .more p6 q6⟩
+            · simp only [List.append_assoc]; rw [q1]; exact p1a
             · simp only
               rw [q3]
               constructor
-              · intro hh; rw [hh]; exact p1
-              · intro hh; rw [← p1] at hh; simpa using hh
+              · intro hh; rw [hh]; exact p1a
+              · intro hh; rw [← p1a] at hh; simpa using hh
             · simp only [List.append_assoc]; rw [← q5]; exact p5
       · rw [if_neg hl]
         exact ⟨p1, p3, p4, c, p5, .last p6⟩
@@ -267,17 +270,18 @@ theorem driveN_spec (n : Nat) : ∀ (script : List Accept) (d : WriteBuf), d.WF 
 /-- **C17, write half.** For every buffer (header ++ payload, any cursor) and every acceptance
     script — any pattern of `Pending`, partial acceptances `ok k` and errors, over any number of
     `poll_ready` calls —
-    1. the bytes Quinn accepted, followed by the bytes the adapter still holds, are exactly the
-       buffer: what was accepted is a prefix, in order, nothing twice, nothing skipped;
-    2. `Ready(Ok)` ⇔ `writing` cleared ⇔ the whole buffer was accepted;
+    1. the bytes Quinn accepted are a prefix of the buffer — in order, nothing twice, nothing
+       skipped — and while the result is `Pending` the adapter still holds exactly the rest;
+    2. `Ready(Ok)` ⇔ the whole buffer was accepted; `writing` is kept ⇔ the result is `Pending`
+       (a write that completed *or failed* is finished and leaves nothing behind);
     3. the `poll_write` calls made are a prefix of the script in which an error answer is the last
        call and is the result (nothing is written after an error);
     4. `send_data` while an earlier buffer is unfinished is refused with the internal error and
        changes nothing (so no interleaving), whereas on a free stream it stores the buffer. -/
 theorem C17_write_loop (d : WriteBuf) (hwf : d.WF) (script : List Accept) :
     let o := drive ⟨some d⟩ script
-    (o.acc ++ o.state.held = d.view) ∧
-    (o.res = .ok ↔ o.state.writing = none) ∧ (o.res = .ok ↔ o.acc = d.view) ∧
+    (∃ t, o.acc ++ t = d.view ∧ (o.res = .pending → t = o.state.held)) ∧
+    (o.res = .pending ↔ o.state.writing ≠ none) ∧ (o.res = .ok ↔ o.acc = d.view) ∧
     (∃ c, script = c ++ o.rest ∧
       ∀ pre e post, c = pre ++ .err e :: post → post = [] ∧ o.res = .err (convertWrite e)) ∧
     (∀ (s : Send) (d2 : WriteBuf), s.writing ≠ none → sendData s d2 = (s, .refused)) ∧
@@ -295,13 +299,51 @@ theorem C17_write_loop (d : WriteBuf) (hwf : d.WF) (script : List Accept) :
 /-- One `poll_ready` call (the loop the code contains), same statement. -/
 theorem C17_poll_ready_once (d : WriteBuf) (hwf : d.WF) (script : List Accept) :
     let o := pollReady ⟨some d⟩ script
-    (o.acc ++ o.state.held = d.view) ∧
-    (o.res = .ok ↔ o.state.writing = none) ∧ (o.res = .ok ↔ o.acc = d.view) ∧
+    (∃ t, o.acc ++ t = d.view ∧ (o.res = .pending → t = o.state.held)) ∧
+    (o.res = .pending ↔ o.state.writing ≠ none) ∧ (o.res = .ok ↔ o.acc = d.view) ∧
     (∃ c, script = c ++ o.rest ∧
       ∀ pre e post, c = pre ++ .err e :: post → post = [] ∧ o.res = .err (convertWrite e)) ∧
     (pollReady ⟨none⟩ script = ⟨⟨none⟩, .ok, [], script⟩) := by
   obtain ⟨h1, _, h3, h4, c, h5, h6⟩ := pollReady_spec d hwf script
   exact ⟨h1, h3, h4, ⟨c, h5, h6.err_last⟩, rfl⟩
+
+/-- **C17, a failed write is finished (D-17c repaired).** For every buffer and every acceptance
+    script, over any number of `poll_ready` calls: if the write ends with an error answer of Quinn
+    (the peer's STOP_SENDING, a lost connection, …) the adapter holds no buffer afterwards, the
+    next `send_data` is accepted — not refused with the connection-level internal error — and a
+    `poll_ready` without a new buffer is `Ready(Ok)`. More precisely `send_data` is refused *iff*
+    the earlier write is still pending (the last poll returned `Pending`). -/
+theorem C17_failed_write_releases (d : WriteBuf) (hwf : d.WF) (script : List Accept) (d2 : WriteBuf) :
+    let o := drive ⟨some d⟩ script
+    (∀ e, o.res = .err e → o.state.writing = none ∧ sendData o.state d2 = (⟨some d2⟩, .ok) ∧
+      (pollReady o.state []).res = .ok) ∧
+    ((sendData o.state d2).2 = .refused ↔ o.res = .pending) ∧
+    ((sendData o.state d2).2 = .ok ↔ o.res ≠ .pending) := by
+  obtain ⟨_, h2, _, _⟩ := driveN_spec script.length script d hwf
+  intro o
+  have h2' : o.res = .pending ↔ o.state.writing ≠ none := h2
+  cases hst : o.state with
+  | mk w =>
+    rw [hst] at h2'
+    cases w with
+    | none =>
+      have hnp : o.res ≠ .pending := fun hp => absurd rfl (h2'.mp hp)
+      refine ⟨fun e _ => ⟨rfl, rfl, rfl⟩, ?_, ?_⟩
+      · constructor
+        · intro hh; simp [sendData] at hh
+        · intro hh; exact absurd hh hnp
+      · constructor
+        · intro _; exact hnp
+        · intro _; rfl
+    | some x =>
+      have hp : o.res = .pending := h2'.mpr (by simp)
+      refine ⟨fun e he => (by rw [hp] at he; cases he), ?_, ?_⟩
+      · constructor
+        · intro _; exact hp
+        · intro _; rfl
+      · constructor
+        · intro hh; simp [sendData] at hh
+        · intro hh; exact absurd hp hh
 
 /-- A fresh `WriteBuf` is well formed and presents header ++ payload. -/
 theorem C17_writebuf_new (hdr payload : Bytes) :
@@ -314,7 +356,16 @@ example : drive ⟨some (WriteBuf.new [0x00, 0x03] [0xaa, 0xbb, 0xcc])⟩ [.ok 1
     ⟨⟨none⟩, .ok, [0x00, 0x03, 0xaa, 0xbb, 0xcc], [.ok 5]⟩ := by decide
 -- an error in the middle: two bytes accepted, the remaining three are still held, nothing after it
 example : drive ⟨some (WriteBuf.new [0x00, 0x03] [0xaa, 0xbb, 0xcc])⟩ [.ok 1, .ok 1, .err (.stopped 9), .ok 3] =
-    ⟨⟨some ⟨[0x00, 0x03], 2, [0xaa, 0xbb, 0xcc]⟩⟩, .err (.terminated 9), [0x00, 0x03], [.ok 3]⟩ := by decide
+    ⟨⟨none⟩, .err (.terminated 9), [0x00, 0x03], [.ok 3]⟩ := by decide
+/-- D-17c on the unrepaired `poll_ready`: after the peer's stop the buffer stays, and the next
+    `send_data` is refused with the (connection-level) internal error; repaired, it is accepted. -/
+example : (sendData (pollReadyUnrepaired ⟨some (WriteBuf.new [0x00, 0x03] [0xaa, 0xbb, 0xcc])⟩ [.ok 1, .err (.stopped 9)]).state
+    (WriteBuf.new [0x00, 0x00] [])).2 = .refused := by decide
+example : (sendData (pollReady ⟨some (WriteBuf.new [0x00, 0x03] [0xaa, 0xbb, 0xcc])⟩ [.ok 1, .err (.stopped 9)]).state
+    (WriteBuf.new [0x00, 0x00] [])).2 = .ok := by decide
+-- a pending write keeps the rest, and only then is a second send_data refused
+example : drive ⟨some (WriteBuf.new [0x00, 0x03] [0xaa, 0xbb, 0xcc])⟩ [.ok 1, .ok 2, .ok 1, .pending] =
+    ⟨⟨some ⟨[0x00, 0x03], 2, [0xbb, 0xcc]⟩⟩, .pending, [0x00, 0x03, 0xaa], []⟩ := by decide
 example : sendData ⟨some (WriteBuf.new [0x00, 0x01] [0x07])⟩ (WriteBuf.new [0x00, 0x00] []) =
     (⟨some (WriteBuf.new [0x00, 0x01] [0x07])⟩, .refused) := by decide
 
@@ -577,5 +628,467 @@ theorem C17_tables_match_source :
 example : convertConn (.applicationClosed 0x10c) = .applicationClose 0x10c := rfl
 example : convertRead (.reset (2^62 - 1)) = some (.terminated (2^62 - 1)) := rfl
 example : convertWrite (.connectionLost .locallyClosed) = .connection (.undefined .locallyClosed) := rfl
+
+/-! ## the unframed write path `poll_send` -/
+
+theorem ubAdvance_view : ∀ (b : List Bytes) (k : Nat), ubView (ubAdvance b k) = (ubView b).drop k := by
+  intro b
+  induction b with
+  | nil => intro k; simp [ubAdvance, ubView]
+  | cons p r ih =>
+    intro k
+    unfold ubAdvance
+    by_cases hk : k < p.length
+    · rw [if_pos hk]
+      simp only [ubView, List.flatten_cons]
+      rw [List.drop_append_of_le_length (by omega)]
+    · rw [if_neg hk]
+      have := ih (k - p.length)
+      simp only [ubView, List.flatten_cons] at this ⊢
+      rw [this, List.drop_append]
+      have : p.drop k = [] := List.drop_eq_nil_of_le (by omega)
+      rw [this, List.nil_append]
+
+theorem ubChunk_prefix : ∀ (b : List Bytes), ∃ t, ubView b = ubChunk b ++ t := by
+  intro b
+  induction b with
+  | nil => exact ⟨[], rfl⟩
+  | cons p r ih =>
+    unfold ubChunk
+    by_cases hp : p.length = 0
+    · rw [if_pos hp]
+      have : p = [] := List.eq_nil_of_length_eq_zero hp
+      obtain ⟨t, ht⟩ := ih
+      exact ⟨t, by simp [ubView, this] at ht ⊢; exact ht⟩
+    · rw [if_neg hp]
+      exact ⟨r.flatten, by simp [ubView]⟩
+
+theorem ubChunk_ne : ∀ (b : List Bytes), ubView b ≠ [] → ubChunk b ≠ [] := by
+  intro b
+  induction b with
+  | nil => intro h; simp [ubView] at h
+  | cons p r ih =>
+    intro h
+    unfold ubChunk
+    by_cases hp : p.length = 0
+    · rw [if_pos hp]
+      have : p = [] := List.eq_nil_of_length_eq_zero hp
+      apply ih
+      simpa [ubView, this] using h
+    · rw [if_neg hp]
+      intro hh; rw [hh] at hp; simp at hp
+
+/-- **C17, one `poll_send`.** On a stream without an unfinished framed write, for every caller
+    buffer (any number of chunks) and every answer of Quinn's `poll_write`:
+    1. accepted bytes ++ what the buffer still yields = what it yielded before — the accepted bytes
+       are its front, in order, once — and the buffer has been advanced by exactly their number;
+    2. the count reported to the caller is that number (never more than Quinn was offered);
+    3. `Pending` and errors leave the buffer untouched and accept nothing; the error is Quinn's
+       write error through `convert_write_error_to_stream_error`;
+    4. the stream's own state is not touched by `poll_send`.
+    While a framed write is unfinished the call is refused: nothing accepted, buffer untouched
+    (no interleaving). -/
+theorem C17_poll_send (s : Send) (buf : List Bytes) (a : Accept) :
+    let o := pollSend s buf a
+    (o.acc ++ ubView o.buf = ubView buf) ∧ (ubView o.buf = (ubView buf).drop o.acc.length) ∧
+    (s.writing = none →
+      (∀ k, o.res = .ok k → k = o.acc.length ∧ k ≤ (ubChunk buf).length ∧ (a = .ok k ∨ ∃ k', a = .ok k' ∧ k ≤ k')) ∧
+      (∀ k, a = .ok k → o.res = .ok (min k (ubChunk buf).length)) ∧
+      (a = .pending → o = ⟨buf, .pending, []⟩) ∧
+      (∀ e, a = .err e → o = ⟨buf, .err (convertWrite e), []⟩)) ∧
+    (s.writing ≠ none → o = ⟨buf, .refused, []⟩) := by
+  cases hs : s.writing with
+  | some d =>
+    simp [pollSend, hs]
+  | none =>
+    cases a with
+    | pending => simp [pollSend, hs]
+    | err e => simp [pollSend, hs]
+    | ok k =>
+      simp only [pollSend, hs]
+      obtain ⟨t, ht⟩ := ubChunk_prefix buf
+      have hle : min k (ubChunk buf).length ≤ (ubChunk buf).length := Nat.min_le_right _ _
+      have hlen : ((ubChunk buf).take (min k (ubChunk buf).length)).length = min k (ubChunk buf).length := by
+        simp
+      refine ⟨?_, ?_, ?_, ?_⟩
+      · rw [ubAdvance_view, ht, List.drop_append_of_le_length hle, ← List.append_assoc,
+          List.take_append_drop]
+      · rw [ubAdvance_view, hlen]
+      · intro _
+        refine ⟨?_, ?_, ?_, ?_⟩
+        · intro k' hk'
+          simp only [SendOut.ok.injEq] at hk'
+          subst hk'
+          refine ⟨hlen.symm, hle, ?_⟩
+          by_cases hkk : k ≤ (ubChunk buf).length
+          · left; rw [Nat.min_eq_left hkk]
+          · right; exact ⟨k, rfl, Nat.min_le_left _ _⟩
+        · intro k' hk'; cases hk'; rfl
+        · intro h; cases h
+        · intro e h; cases h
+      · intro h; exact absurd rfl h
+
+/-- The `poll_write` answers one run of the callers' loop consumed: `ok`s and `Pending`s, then at
+    most one error, which is the result. -/
+inductive SendAllTrace : List Accept → SendAllRes → Prop where
+  | done : SendAllTrace [] .done
+  | silent : SendAllTrace [] .pending
+  | err (e : WriteError) : SendAllTrace [.err e] (.err (convertWrite e))
+  | ok (k : Nat) {c : List Accept} {r : SendAllRes} : SendAllTrace c r → SendAllTrace (.ok k :: c) r
+  | pending {c : List Accept} {r : SendAllRes} : SendAllTrace c r → SendAllTrace (.pending :: c) r
+
+theorem SendAllTrace.err_last {c : List Accept} {r : SendAllRes} (h : SendAllTrace c r) :
+    ∀ pre e post, c = pre ++ .err e :: post → post = [] ∧ r = .err (convertWrite e) := by
+  induction h with
+  | done => intro pre e post h; simp at h
+  | silent => intro pre e post h; simp at h
+  | err e0 =>
+    intro pre e post h
+    cases pre with
+    | nil => simp at h; obtain ⟨h1, h2⟩ := h; subst h1; exact ⟨h2, rfl⟩
+    | cons a p => simp at h
+  | ok k _ ih =>
+    intro pre e post h
+    cases pre with
+    | nil => simp at h
+    | cons a p => simp at h; exact ih p e post h.2
+  | pending _ ih =>
+    intro pre e post h
+    cases pre with
+    | nil => simp at h
+    | cons a p => simp at h; exact ih p e post h.2
+
+theorem sendAll_spec (script : List Accept) : ∀ (buf : List Bytes),
+    let o := sendAll ⟨none⟩ buf script
+    o.acc ++ ubView o.buf = ubView buf ∧ ubView o.buf = (ubView buf).drop o.acc.length ∧
+    (o.res = .done ↔ ubView o.buf = []) ∧ o.res ≠ .refused ∧
+    ∃ c, script = c ++ o.rest ∧ SendAllTrace c o.res := by
+  induction script with
+  | nil =>
+    intro buf
+    unfold sendAll
+    by_cases h0 : (ubView buf).length = 0
+    · rw [if_pos h0]
+      have : ubView buf = [] := List.eq_nil_of_length_eq_zero h0
+      exact ⟨by simp, by simp, by simp [this], by simp, [], rfl, .done⟩
+    · rw [if_neg h0]
+      have : ubView buf ≠ [] := fun hv => h0 (by rw [hv]; rfl)
+      exact ⟨by simp, by simp, by simp [this], by simp, [], rfl, .silent⟩
+  | cons a r ih =>
+    intro buf
+    unfold sendAll
+    by_cases h0 : (ubView buf).length = 0
+    · rw [if_pos h0]
+      have : ubView buf = [] := List.eq_nil_of_length_eq_zero h0
+      exact ⟨by simp, by simp, by simp [this], by simp, [], rfl, .done⟩
+    · rw [if_neg h0]
+      have hne : ubView buf ≠ [] := fun hv => h0 (by rw [hv]; rfl)
+      cases a with
+      | pending =>
+        simp only [pollSend]
+        obtain ⟨i1, i2, i3, i4, c, i5, i6⟩ := ih buf
+        exact ⟨i1, i2, i3, i4, .pending :: c, by simp [← i5], .pending i6⟩
+      | err e =>
+        simp only [pollSend]
+        exact ⟨by simp, by simp, by simp [hne], by simp, [.err e], rfl, .err e⟩
+      | ok k =>
+        have hp := C17_poll_send ⟨none⟩ buf (.ok k)
+        simp only [pollSend] at hp ⊢
+        obtain ⟨p1, p2, _, _⟩ := hp
+        obtain ⟨i1, i2, i3, i4, c, i5, i6⟩ := ih (ubAdvance buf (min k (ubChunk buf).length))
+        refine ⟨?_, ?_, i3, i4, .ok k :: c, by simp [← i5], .ok k i6⟩
+        · simp only [List.append_assoc]; rw [i1]; exact p1
+        · simp only [List.length_append]
+          rw [i2, p2, List.drop_drop]
+
+/-- **C17, the unframed write loop.** `while buf.has_remaining() { ready!(poll_send(cx, buf))? }`
+    on a stream without an unfinished framed write, for every caller buffer and every acceptance
+    script (any pattern of `Pending`, partial acceptances and errors):
+    1. the bytes Quinn accepted, followed by what the buffer still yields, are what it yielded at
+       the start: accepted in order, each once, nothing skipped, and the buffer was advanced by
+       exactly the number of accepted bytes;
+    2. the loop is done ⇔ the buffer is empty ⇔ everything was accepted;
+    3. the `poll_write` calls made are a prefix of the script in which an error answer is the last
+       call and is the result (through `convert_write_error_to_stream_error`). -/
+theorem C17_poll_send_loop (buf : List Bytes) (script : List Accept) :
+    let o := sendAll ⟨none⟩ buf script
+    (o.acc ++ ubView o.buf = ubView buf) ∧ (ubView o.buf = (ubView buf).drop o.acc.length) ∧
+    (o.res = .done ↔ ubView o.buf = []) ∧ (o.res = .done ↔ o.acc = ubView buf) ∧
+    (∃ c, script = c ++ o.rest ∧
+      ∀ pre e post, c = pre ++ .err e :: post → post = [] ∧ o.res = .err (convertWrite e)) := by
+  obtain ⟨h1, h2, h3, _, c, h5, h6⟩ := sendAll_spec script buf
+  refine ⟨h1, h2, h3, ?_, c, h5, h6.err_last⟩
+  rw [h3]
+  constructor
+  · intro hh; rw [hh] at h1; simpa using h1
+  · intro hh; rw [hh] at h1; simpa using h1
+
+/-- **C17, `poll_send` while a framed write is unfinished** is refused with the internal error, as a
+    second `send_data` is: nothing is handed to Quinn, the caller's buffer is untouched, the pending
+    framed buffer is untouched — the two writes are never interleaved, and nothing panics. -/
+theorem C17_poll_send_refused (d : WriteBuf) (buf : List Bytes) (a : Accept) (script : List Accept) :
+    pollSend ⟨some d⟩ buf a = ⟨buf, .refused, []⟩ ∧
+    (ubView buf ≠ [] → script ≠ [] → (sendAll ⟨some d⟩ buf script).res = .refused ∧
+      (sendAll ⟨some d⟩ buf script).acc = [] ∧ (sendAll ⟨some d⟩ buf script).buf = buf) := by
+  refine ⟨rfl, ?_⟩
+  intro hne hs
+  cases script with
+  | nil => exact absurd rfl hs
+  | cons a r =>
+    have h0 : ¬ (ubView buf).length = 0 := fun h => hne (List.eq_nil_of_length_eq_zero h)
+    unfold sendAll
+    rw [if_neg h0]
+    simp [pollSend]
+
+-- non-vacuity: a two-chunk buffer `aa bb | cc dd ee`; Quinn takes 1, then is offered only `bb`
+-- (the chunk ends there) although it would take 5, says Pending, takes 2, errors are last
+example : sendAll ⟨none⟩ [[0xaa, 0xbb], [0xcc, 0xdd, 0xee]] [.ok 1, .ok 5, .pending, .ok 2, .ok 9, .ok 1] =
+    ⟨[], .done, [0xaa, 0xbb, 0xcc, 0xdd, 0xee], [.ok 1]⟩ := by decide
+example : sendAll ⟨none⟩ [[0xaa, 0xbb], [0xcc, 0xdd, 0xee]] [.ok 3, .err (.stopped 9), .ok 1] =
+    ⟨[[0xcc, 0xdd, 0xee]], .err (.terminated 9), [0xaa, 0xbb], [.ok 1]⟩ := by decide
+example : pollSend ⟨none⟩ [[], [0xaa, 0xbb], [0xcc]] (.ok 1) = ⟨[[0xbb], [0xcc]], .ok 1, [0xaa]⟩ := by decide
+/-- D-17b on the unrepaired `poll_send`: a framed write is pending (`send_data`, then `poll_ready`
+    returned `Pending`) and the next unframed write panics; repaired, it is refused. -/
+example : (pollSendUnrepaired (pollReady ⟨some (WriteBuf.new [0x00, 0x05] [1, 2, 3, 4, 5])⟩ [.ok 1, .pending]).state
+    [[0xaa]] (.ok 1)).res = .panic := by decide
+example : (pollSend (pollReady ⟨some (WriteBuf.new [0x00, 0x05] [1, 2, 3, 4, 5])⟩ [.ok 1, .pending]).state
+    [[0xaa]] (.ok 1)) = ⟨[[0xaa]], .refused, []⟩ := by decide
+
+/-! ## the unsplit `BidiStream` -/
+
+theorem bidi_run_split (ops : List BidiOp) : ∀ b : Bidi,
+    (b.run ops).1.sendId = b.sendId ∧ (b.run ops).1.send = sendHalfRun b.send ops ∧
+    (b.run ops).1.recv = (b.recv.run (recvHalfOps ops)).1 := by
+  induction ops with
+  | nil => intro b; exact ⟨rfl, rfl, rfl⟩
+  | cons op ops ih =>
+    intro b
+    cases op with
+    | recv o =>
+      obtain ⟨i1, i2, i3⟩ := ih (b.step (.recv o)).1
+      simp only [Bidi.run, sendHalfRun, recvHalfOps, Recv.run]
+      exact ⟨i1, i2, i3⟩
+    | sendData d =>
+      obtain ⟨i1, i2, i3⟩ := ih (b.step (.sendData d)).1
+      simp only [Bidi.run, sendHalfRun, recvHalfOps]
+      exact ⟨i1, i2, i3⟩
+    | pollReady sc =>
+      obtain ⟨i1, i2, i3⟩ := ih (b.step (.pollReady sc)).1
+      simp only [Bidi.run, sendHalfRun, recvHalfOps]
+      exact ⟨i1, i2, i3⟩
+    | sendId =>
+      obtain ⟨i1, i2, i3⟩ := ih (b.step .sendId).1
+      simp only [Bidi.run, sendHalfRun, recvHalfOps]
+      exact ⟨i1, i2, i3⟩
+
+theorem bidi_run_ids (id : Nat) (ops : List BidiOp) : ∀ b : Bidi, b.sendId = id → RecvInv id b.recv →
+    ∀ o ∈ (b.run ops).2, (∀ n, o = .id n → n = id) ∧ (∀ n, o = .recv (.id n) → n = id) := by
+  induction ops with
+  | nil => intro b _ _ o ho; simp [Bidi.run] at ho
+  | cons op ops ih =>
+    intro b hs hr o ho
+    simp only [Bidi.run, List.mem_cons] at ho
+    rcases ho with ho | ho
+    · cases op with
+      | recv rop =>
+        simp only [Bidi.step] at ho
+        subst ho
+        refine ⟨fun n h => (by cases h), ?_⟩
+        intro n hn
+        simp only [BidiOut.recv.injEq] at hn
+        have := run_ids id [rop] b.recv hr (b.recv.step rop).2 (by simp [Recv.run]) n hn
+        exact this
+      | sendData d => simp only [Bidi.step] at ho; subst ho; exact ⟨fun n h => (by cases h), fun n h => (by cases h)⟩
+      | pollReady sc => simp only [Bidi.step] at ho; subst ho; exact ⟨fun n h => (by cases h), fun n h => (by cases h)⟩
+      | sendId =>
+        simp only [Bidi.step] at ho
+        subst ho
+        exact ⟨fun n h => (by cases h; exact hs), fun n h => (by cases h)⟩
+    · have hs' : (b.step op).1.sendId = id := by cases op <;> simp [Bidi.step, hs]
+      have hr' : RecvInv id (b.step op).1.recv := by
+        cases op with
+        | recv rop => simp only [Bidi.step]; exact step_inv id b.recv rop hr
+        | sendData d => simpa [Bidi.step] using hr
+        | pollReady sc => simpa [Bidi.step] using hr
+        | sendId => simpa [Bidi.step] using hr
+      exact ih _ hs' hr' o ho
+
+/-- **C17, the unsplit `BidiStream` only delegates.** For a stream freshly opened or accepted with
+    id `id` and any sequence of operations through the unsplit stream (`poll_data` with any read
+    event, `stop_sending`, `recv_id`, `send_data`, `poll_ready` against any script, `send_id`):
+    1. every `send_id` and every `recv_id` answer along the way is `id` (none panics);
+    2. `split` afterwards yields exactly the halves that the same operations, applied to a send
+       half and a receive half separately, would have produced — so after `split` both halves
+       still answer `id`, a pending framed write stays pending, a remembered stop stays remembered. -/
+theorem C17_bidi_delegation (id : Nat) (ops : List BidiOp) :
+    let b := ((Bidi.new id).run ops).1
+    (∀ o ∈ ((Bidi.new id).run ops).2, (∀ n, o = .id n → n = id) ∧ (∀ n, o = .recv (.id n) → n = id)) ∧
+    b.split = ((id, sendHalfRun ⟨none⟩ ops), ((Recv.new id).run (recvHalfOps ops)).1) ∧
+    b.split.1.1 = id ∧ recvId b.split.2 = .id id := by
+  have h0 : RecvInv id (Recv.new id) := ⟨rfl, fun _ => rfl⟩
+  obtain ⟨s1, s2, s3⟩ := bidi_run_split ops (Bidi.new id)
+  refine ⟨bidi_run_ids id ops (Bidi.new id) rfl h0, ?_, s1, ?_⟩
+  · simp only [Bidi.split, s1, s2, s3]; rfl
+  · simp only [Bidi.split, s3, recvId_total]
+    have := (run_inv id (recvHalfOps ops) (Bidi.new id).recv h0).1
+    rw [this]
+
+example : ((Bidi.new 4).run [.sendId, .recv (.pollData .pending), .recv .recvId, .sendData (WriteBuf.new [0, 1] [9]),
+      .pollReady [.ok 1, .pending], .sendId, .recv (.stopSending 7), .recv .recvId]).2 =
+    [.id 4, .recv .pending, .recv (.id 4), .send .ok, .ready .pending, .id 4, .recv .unit, .recv (.id 4)] := by decide
+example : ((Bidi.new 4).run [.recv (.pollData .pending), .sendData (WriteBuf.new [0, 1] [9]), .pollReady [.ok 1, .pending],
+      .recv (.stopSending 7)]).1.split =
+    ((4, ⟨some ⟨[0, 1], 1, [9]⟩⟩), ⟨4, false, some 7, [], true⟩) := by decide
+
+/-! ## opening, accepting, closing -/
+
+theorem opener_run_handed (steps : List OpenStep) : ∀ o : Opener,
+    handedOut (o.run steps).2 = created steps := by
+  induction steps with
+  | nil => intro o; rfl
+  | cons st r ih =>
+    intro o
+    simp only [Opener.run, created]
+    cases hb : st.bidi <;> cases hev : st.ev <;>
+      simp [Opener.step, hb, hev, pollOpenBidi, pollOpenSend, handedOut, Bidi.new, Recv.new, ih]
+
+/-- **C17, opening through the adapter neither duplicates nor drops a stream.** For every opener
+    (`Connection`, `opener()`, a clone — all start the same) and every sequence of `poll_open_bidi` /
+    `poll_open_send` calls against whatever Quinn's `open_bi()` / `open_uni()` futures do (not yet,
+    a stream, the connection's error, in any pattern):
+    1. the streams handed to the caller are exactly the streams Quinn created, in order, each once,
+       under the id Quinn gave them — for a bidirectional one *both* halves carry that id;
+    2. `Pending` hands out nothing and an error of the connection arrives as
+       `StreamErrorIncoming::ConnectionErrorIncoming` with the class `convert_connection_error` gives
+       (application close and its code, timeout, otherwise undefined);
+    3. a clone shares nothing with its original but the connection (no future, no stream).
+    (That Quinn's ids are fresh and that a stream exists only when its future completes is Quinn's:
+    observed by the correspondence run, where the raw peer accepts every opened stream once.) -/
+theorem C17_open_no_dup_no_drop (steps : List OpenStep) (o : Opener) :
+    handedOut (o.run steps).2 = created steps ∧
+    (∀ ev, (pollOpenBidi o ev).2 = .pending ↔ ev = .pending) ∧
+    (∀ ev, (pollOpenSend o ev).2 = .pending ↔ ev = .pending) ∧
+    (∀ e, (pollOpenBidi o (.err e)).2 = .err (.connection (convertConn e)) ∧
+          (pollOpenSend o (.err e)).2 = .err (.connection (convertConn e)) ∧
+          pollAcceptBidi (.err e) = .err (convertConn e) ∧ pollAcceptRecv (.err e) = .err (convertConn e)) ∧
+    (∀ id, (pollOpenBidi o (.ok id)).2 = .bidi (Bidi.new id) ∧ (Bidi.new id).sendId = id ∧
+          recvId (Bidi.new id).recv = .id id ∧ pollAcceptBidi (.ok id) = .bidi (Bidi.new id) ∧
+          pollAcceptRecv (.ok id) = .recv (Recv.new id)) ∧
+    o.clone = Opener.new := by
+  refine ⟨opener_run_handed steps o, ?_, ?_, ?_, ?_, rfl⟩
+  · intro ev; cases ev <;> simp [pollOpenBidi]
+  · intro ev; cases ev <;> simp [pollOpenSend]
+  · intro e; exact ⟨rfl, rfl, rfl, rfl⟩
+  · intro id; exact ⟨rfl, rfl, rfl, rfl, rfl⟩
+
+example : handedOut (Opener.new.run [⟨true, .pending⟩, ⟨true, .ok 0⟩, ⟨false, .ok 2⟩, ⟨true, .pending⟩,
+      ⟨true, .err (.applicationClosed 0x10c)⟩, ⟨true, .ok 4⟩]).2 = [0, 2, 4] := by decide
+example : (pollOpenBidi Opener.new (.err (.applicationClosed 0x10c))).2 =
+    .err (.connection (.applicationClose 0x10c)) := rfl
+
+/-- **C17, `close(code, reason)`.** Quinn's `close` is called with exactly `code` (every code a QUIC
+    varint can carry) and exactly `reason`; a code beyond 2^62−1 is the documented `expect` panic. -/
+theorem C17_close_code_exact (code : Nat) (reason : Bytes) :
+    (code < 2^62 → closeArgs code reason = some (code, reason)) ∧
+    (¬ code < 2^62 → closeArgs code reason = none) := by
+  unfold closeArgs closeArg
+  constructor
+  · intro h; rw [if_pos h]
+  · intro h; rw [if_neg h]
+
+example : closeArgs 0x10c [104, 105] = some (0x10c, [104, 105]) := by decide
+
+/-! ## the conversion tables, completely -/
+
+/-- **C17, the conversion tables are total and lose nothing.** For *every* value of Quinn's three
+    error types:
+    * `convert_connection_error`: application close ⇒ `ApplicationClose{code}`, idle timeout ⇒
+      `Timeout`, each of the six other conditions (version mismatch, transport error, connection
+      closed by the peer's transport, stateless reset, locally closed, CIDs exhausted) ⇒ `Undefined`
+      wrapping that very error; never `InternalError`;
+    * `convert_read_error_to_stream_error`: reset ⇒ `StreamTerminated{code}`, lost connection ⇒
+      the connection class above, closed stream / rejected 0-RTT ⇒ `Unknown` wrapping it, an
+      illegal ordered read ⇒ the one panic;
+    * `convert_write_error_to_stream_error`: stopped ⇒ `StreamTerminated{code}`, lost connection ⇒
+      the connection class, closed stream / rejected 0-RTT ⇒ `Unknown`;
+    and all three are injective: the h3 error determines Quinn's condition and the peer's code. -/
+theorem C17_error_tables_total :
+    (∀ e, convertConn e = (match e with
+        | .applicationClosed c => .applicationClose c
+        | .timedOut => .timeout
+        | x => .undefined x)) ∧
+    (∀ e, convertRead e = (match e with
+        | .reset c => some (.terminated c)
+        | .connectionLost x => some (.connection (convertConn x))
+        | .closedStream => some (.unknown .closedStream)
+        | .zeroRttRejected => some (.unknown .zeroRttRejected)
+        | .illegalOrderedRead => none)) ∧
+    (∀ e, convertWrite e = (match e with
+        | .stopped c => .terminated c
+        | .connectionLost x => .connection (convertConn x)
+        | .closedStream => .unknown .closedStream
+        | .zeroRttRejected => .unknown .zeroRttRejected)) ∧
+    (∀ a b, convertConn a = convertConn b → a = b) ∧
+    (∀ a b, convertRead a = convertRead b → a = b) ∧
+    (∀ a b, convertWrite a = convertWrite b → a = b) := by
+  have hc : ∀ a b, convertConn a = convertConn b → a = b := by
+    intro a b h
+    cases a <;> cases b <;> simp [convertConn] at h <;> first | rfl | (cases h; rfl) | (rw [h])
+  refine ⟨?_, ?_, ?_, hc, ?_, ?_⟩
+  · intro e; cases e <;> rfl
+  · intro e; cases e <;> rfl
+  · intro e; cases e <;> rfl
+  · intro a b h
+    cases a <;> cases b <;> simp [convertRead] at h <;> first | rfl | (rw [h]) | (rw [hc _ _ h])
+  · intro a b h
+    cases a <;> cases b <;> simp [convertWrite] at h <;> first | rfl | (rw [h]) | (rw [hc _ _ h])
+
+example : convertConn .connectionClosed = .undefined .connectionClosed := rfl
+example : convertConn .reset = .undefined .reset := rfl
+example : convertRead .zeroRttRejected = some (.unknown .zeroRttRejected) := rfl
+
+/-- **C17, datagram errors.** `send_datagram`: unsupported by the peer / disabled locally ⇔
+    `NotAvailable`, too large ⇔ `TooLarge`, a lost connection ⇒ `ConnectionError` with the class
+    and code `convert_connection_error` gives (`convert_h3_error_to_datagram_error` is the identity);
+    `poll_incoming_datagram` uses `convert_connection_error` directly. -/
+theorem C17_datagram_tables :
+    (∀ e, convertH3ToDatagram e = e) ∧
+    (∀ e, convertSendDatagram e = .notAvailable ↔ e = .unsupportedByPeer ∨ e = .disabled) ∧
+    (∀ e, convertSendDatagram e = .tooLarge ↔ e = .tooLarge) ∧
+    (∀ e x, convertSendDatagram e = .connection x ↔ ∃ q, e = .connectionLost q ∧ x = convertConn q) ∧
+    (∀ e c, convertSendDatagram e = .connection (.applicationClose c) ↔ e = .connectionLost (.applicationClosed c)) ∧
+    (∀ e, convertSendDatagram e = .connection .timeout ↔ e = .connectionLost .timedOut) := by
+  have hid : ∀ e, convertH3ToDatagram e = e := by intro e; cases e <;> rfl
+  refine ⟨hid, ?_, ?_, ?_, ?_, ?_⟩
+  · intro e; cases e <;> simp [convertSendDatagram]
+  · intro e; cases e <;> simp [convertSendDatagram]
+  · intro e x
+    cases e <;> simp [convertSendDatagram, hid]
+    exact eq_comm
+  · intro e c
+    cases e with
+    | connectionLost q => cases q <;> simp [convertSendDatagram, hid, convertConn]
+    | _ => simp [convertSendDatagram]
+  · intro e
+    cases e with
+    | connectionLost q => cases q <;> simp [convertSendDatagram, hid, convertConn]
+    | _ => simp [convertSendDatagram]
+
+example : convertSendDatagram (.connectionLost (.applicationClosed 0x33)) = .connection (.applicationClose 0x33) := rfl
+
+/-- The remaining generated tables agree with the model: the two conversion functions of
+    `datagram.rs`, the arms that wrap the error they matched, and — for every method of every `impl`
+    block of `lib.rs` and `datagram.rs` — which conversion it applies, which error it builds itself,
+    where it can panic and what it delegates to (so the model's reading "the accept paths use
+    `convert_connection_error`, the open paths wrap it into a stream error, `poll_ready` and
+    `poll_send` use the write table, `poll_data` the read table, the unsplit stream only
+    delegates, `poll_send` and `send_data` refuse with the internal error and nothing but the listed
+    `expect`s can panic" is re-checked against the source on every run). -/
+theorem C17_sites_match_source :
+    H3.Gen.QuinnTables.dgSendTable = dgSendTable ∧ H3.Gen.QuinnTables.dgConnTable = dgConnTable ∧
+    ((∀ p ∈ H3.Gen.QuinnTables.wrapTable, p ∈ wrapTable) ∧ (∀ p ∈ wrapTable, p ∈ H3.Gen.QuinnTables.wrapTable)) ∧
+    H3.Gen.QuinnTables.wrapTable.length = wrapTable.length ∧
+    H3.Gen.QuinnTables.siteTable = siteTable := by
+  decide
 
 end H3.Props.C17
